@@ -216,21 +216,70 @@ class Roles:
     def storage_fn(self, name: str) -> FuncInfo:
         return self.m.func(f"_storage.{name}")
 
+    def _stack_role(self, role: str) -> FuncInfo:
+        """The API function with a role on the binding-context stack.  The pinned name is used
+        when it still exists; after a rename the function is found by what it does to the
+        thread-local stack (the attribute something `.append`s to): push appends, pop pops,
+        'set' writes the dicts on top of it (or replaces the top), 'get' hands the top out."""
+        cache = self.__dict__.setdefault("_stack_roles", {})
+        if role in cache:
+            return cache[role]
+        named = {"push": "push_shape_memo", "pop": "pop_shape_memo", "get": "get_shape_memo", "set": "set_shape_memo"}[role]
+        f = self.m.functions.get(f"_storage.{named}")
+        if f is None:
+            try:
+                f = self.m.func(f"_storage.{named}")
+            except AnalysisError:
+                f = None
+        if f is None:
+            f = self._discover_stack_role(role, named)
+        cache[role] = f
+        return f
+
+    def _discover_stack_role(self, role: str, named: str) -> FuncInfo:
+        stacks = {(o.tl, o.attr.split(".")[0]) for o in self.ops if o.op == "call:append"}
+        need(len(stacks) == 1, f"anchor function _storage.{named} not found (and {len(stacks)} thread-local stacks to look for its role)")
+        (tl, attr), = stacks
+        by_fn: dict = {}
+        for o in self.ops:
+            if o.tl == tl and o.attr.split(".")[0] == attr and isinstance(o.fn, FuncInfo):
+                by_fn.setdefault(o.fn.qualname, []).append(o)
+        cands = []
+        for q, ops in by_fn.items():
+            fn = self.m.functions[q]
+            kinds = {o.op for o in ops}
+            has_value_return = any(isinstance(n, ast.Return) and n.value is not None and not (isinstance(n.value, ast.Constant) and n.value.value is None)
+                                   for n in walk_scope(fn.node))
+            mutates_elems = any(isinstance(n, ast.Call) and isinstance(n.func, ast.Attribute) and n.func.attr in ("clear", "update")
+                                and isinstance(n.func.value, ast.Name) for n in walk_scope(fn.node))
+            if role == "push" and "call:append" in kinds:
+                cands.append(fn)
+            elif role == "pop" and "call:pop" in kinds:
+                cands.append(fn)
+            elif role == "set" and "call:append" not in kinds and "call:pop" not in kinds and ("store" in kinds or mutates_elems) and not has_value_return:
+                cands.append(fn)
+            elif role == "get" and kinds <= {"load"} and has_value_return and not mutates_elems \
+                    and any(isinstance(n, ast.Return) and isinstance(n.value, ast.Tuple) and len(n.value.elts) == 4 for n in walk_scope(fn.node)):
+                cands.append(fn)
+        # prefer the outermost API function: one that is not only called by another candidate
+        need(len(cands) == 1, f"anchor function _storage.{named} not found (role '{role}': {len(cands)} candidates by effect: {[c.qualname for c in cands]})")
+        return cands[0]
+
     @property
     def push(self):
-        return self.storage_fn("push_shape_memo")
+        return self._stack_role("push")
 
     @property
     def pop(self):
-        return self.storage_fn("pop_shape_memo")
+        return self._stack_role("pop")
 
     @property
     def get(self):
-        return self.storage_fn("get_shape_memo")
+        return self._stack_role("get")
 
     @property
     def set(self):
-        return self.storage_fn("set_shape_memo")
+        return self._stack_role("set")
 
     CANON = ("push_shape_memo", "pop_shape_memo", "get_shape_memo", "set_shape_memo", "shape_str", "print_bindings",
              "set_treepath_memo", "clear_treepath_memo", "get_treepath_memo", "set_treeflatten_memo", "clear_treeflatten_memo",
@@ -249,6 +298,11 @@ class Roles:
                         try:
                             f = self.m.func(f"_storage.{nm}")
                         except Exception:
+                            f = None
+                    if f is None and nm in ("push_shape_memo", "pop_shape_memo", "get_shape_memo", "set_shape_memo"):
+                        try:
+                            f = self._stack_role(nm.split("_")[0])
+                        except AnalysisError:
                             f = None
                     if f is not None:
                         self._canon_by_id[id(f)] = nm
